@@ -67,12 +67,17 @@ type atrip struct {
 	fp   int
 }
 type amiss struct{ name, fp int }
+type aroot struct {
+	n  anode
+	fp int
+}
 type adump struct {
 	nodes    []anode
 	edges    []aedge
 	missing  []amiss
 	children []atrip
 	parents  []atrip
+	roots    []aroot
 }
 
 const K = 1 << 20
@@ -109,6 +114,12 @@ func (d *adump) canon() {
 	})
 	sort.SliceStable(d.children, func(i, j int) bool { return less4(d.children[i].key(), d.children[j].key()) })
 	sort.SliceStable(d.parents, func(i, j int) bool { return less4(d.parents[i].key(), d.parents[j].key()) })
+	sort.SliceStable(d.roots, func(i, j int) bool {
+		if d.roots[i].n.code() != d.roots[j].n.code() {
+			return d.roots[i].n.code() < d.roots[j].n.code()
+		}
+		return d.roots[i].fp < d.roots[j].fp
+	})
 }
 
 // abstract translates the hook's dump into identifiers; anomalies that the
@@ -201,6 +212,9 @@ func abstract(p *pkig.PKI, d *verifier.VerifGraphDump) (*adump, []string) {
 				out.parents = append(out.parents, atrip{self, pn, p.FPOf([]byte(fp))})
 			}
 		}
+		for _, fp := range n.Roots {
+			out.roots = append(out.roots, aroot{self, p.FPOf([]byte(fp))})
+		}
 		for k, fps := range n.Children {
 			cn, ok := byFP[k]
 			if !ok {
@@ -245,7 +259,11 @@ func coqDump(d *adump) string {
 		}
 		return vh.List0(xs, "trip")
 	}
-	return vh.Pair(vh.List0(ns, "node"), vh.List0(es, "eobs"), vh.List0(ms, "miss"), tr(d.children), tr(d.parents))
+	rs := make([]string, len(d.roots))
+	for i, r := range d.roots {
+		rs[i] = vh.Pair(coqNode(r.n), vh.NI(r.fp))
+	}
+	return vh.Pair(vh.List0(ns, "node"), vh.List0(es, "eobs"), vh.List0(ms, "miss"), tr(d.children), tr(d.parents), vh.List0(rs, "(node * N)"))
 }
 func coqOps(p *pkig.PKI, ops []opSpec) string {
 	xs := make([]string, len(ops))
@@ -477,6 +495,25 @@ func declarative(p *pkig.PKI, g *verifier.Graph, d *verifier.VerifGraphDump, don
 			}
 		}
 	}
+	// rootEdges of a node = the root edges whose child it is
+	wantRoots := map[adj]bool{}
+	for _, e := range d.Edges {
+		if e.Root {
+			wantRoots[adj{e.ChildFP, "", e.CertFP}] = true
+		}
+	}
+	gotR := 0
+	for _, n := range d.Nodes {
+		for _, fp := range n.Roots {
+			gotR++
+			if !wantRoots[adj{n.SKFP, "", fp}] {
+				return "root-edges", "rootEdges holds an edge that is not a root edge into this node"
+			}
+		}
+	}
+	if gotR != len(wantRoots) {
+		return "root-edges", fmt.Sprintf("rootEdges hold %d edges, the graph has %d root edges", gotR, len(wantRoots))
+	}
 	if gotC != len(wantChildren) || gotP != len(wantParents) {
 		return "adjacency", fmt.Sprintf("adjacency maps hold %d/%d edges, %d edges have an issuer", gotC, gotP, len(wantChildren))
 	}
@@ -621,6 +658,10 @@ func hashGraph(h uint64, d *adump) uint64 {
 	h = mix(h, 15)
 	for _, t := range d.parents {
 		h = mix(mixNode(mixNode(h, t.a), t.b), uint64(t.fp))
+	}
+	h = mix(h, 16)
+	for _, r := range d.roots {
+		h = mix(mixNode(h, r.n), uint64(r.fp))
 	}
 	return h
 }
